@@ -205,7 +205,7 @@ fn indy(out: &mut Vec<DetCase>) {
 /// k diamonds on top of each other (coq/C15/Theory3.v `tower`): 2^(k+2) - 3 paths start at the top class although the
 /// table has 4k edges; get_ancestors has no visited set and walks every path.  The bound of the bridge is the bottom class.
 fn towers(out: &mut Vec<DetCase>) {
-	for (k, order) in [(3usize, 0usize), (6, 1), (9, 0), (9, 2)] {
+	for (k, order) in [(3usize, 0usize), (6, 1), (9, 0), (9, 2), (40, 0), (64, 1)] {
 		let t = |i: usize| format!("p/T{i}"); let l = |i: usize| format!("p/L{i}"); let r = |i: usize| format!("p/R{i}");
 		let mut jar = vec![];
 		for i in 0..k {
@@ -223,7 +223,156 @@ fn towers(out: &mut Vec<DetCase>) {
 		// a second unflagged synthetic whose bound is not an ancestor: the whole hierarchy is walked without a hit
 		jar.push(class("A", None, &[]));
 		jar[ti].methods.push(meth(ACC_PUBLIC | ACC_SYNTHETIC, "get", "(LA;)V", Some(vec![inv(CallKind::Virtual, &t(0), "m", &sd)])));
-		out.push(DetCase { label: format!("tower of {k} diamonds, order {order}"), g: JarGen { classes: jar, libs: vec![] }, maps: vec![] });
+		out.push(DetCase { label: format!("{} of {k} diamonds, order {order}", if k > 9 { "tall tower" } else { "tower" }), g: JarGen { classes: jar, libs: vec![] }, maps: vec![] });
+	}
+}
+
+/// Cyclic hierarchies.  A class file is free to name any class as its super class or interface — itself, or a class
+/// that names it back: legal bytes for every reader, although no JVM would link them.  The hierarchy work-lists
+/// (get_ancestors for the type test of an unflagged synthetic, get_descendants for the tie-break between two bridges of
+/// one delegate) must answer on them, with the transitive closure: a class on a cycle is its own ancestor.
+/// The delegate's parameter type is `start`; the bound of the unflagged synthetic is an in-jar class that is / is not
+/// reachable, so the whole reachable part is walked.
+fn cycles(out: &mut Vec<DetCase>) {
+	// (label, classes as (name, super, interfaces), start of the walk)
+	let shapes: Vec<(&str, Vec<(&str, Option<&str>, Vec<&str>)>, &str)> = vec![
+		("self loop (super class)", vec![("A", Some("A"), vec![])], "A"),
+		("self loop (interface)", vec![("A", None, vec!["A"])], "A"),
+		("two classes extending each other", vec![("A", Some("B"), vec![]), ("B", Some("A"), vec![])], "A"),
+		("two interfaces extending each other", vec![("I", None, vec!["J"]), ("J", None, vec!["I"])], "I"),
+		("cycle of three, mixed edges", vec![("A", Some("B"), vec![]), ("B", None, vec!["C"]), ("C", Some("A"), vec!["I"]), ("I", None, vec![])], "B"),
+		("cycle below the start", vec![("C", Some("A"), vec![]), ("A", Some("B"), vec![]), ("B", Some("A"), vec!["I"]), ("I", None, vec![])], "C"),
+		("cycle reached through the second parent", vec![("C", Some("I"), vec!["A"]), ("I", None, vec![]), ("A", Some("B"), vec![]), ("B", None, vec!["A", "J"]), ("J", None, vec![])], "C"),
+		("two cycles sharing a class", vec![("A", Some("B"), vec!["C"]), ("B", Some("A"), vec![]), ("C", None, vec!["A", "J"]), ("J", None, vec![])], "A"),
+		("cycle through a class outside the jar", vec![("A", Some("x/Lib"), vec![]), ("B", Some("A"), vec![])], "B"),
+		("cycle with a diamond inside", vec![("A", Some("B"), vec!["C"]), ("B", None, vec!["I"]), ("C", None, vec!["I"]), ("I", None, vec!["A"])], "A"),
+	];
+	for (label, classes, start) in shapes {
+		for reversed in [false, true] {
+			let mut jar: Vec<AClass> = classes.iter().map(|(n, sup, ifs)| class(n, *sup, ifs)).collect();
+			if reversed { jar.reverse(); }
+			// bounds: every in-jar class of the pool that is not the start (reachable ones are hits, D never is), and the start itself
+			jar.push(class("D", None, &[]));
+			jar.push(class("E", None, &[]));
+			let ei = jar.len() - 1;
+			let sd = format!("(L{start};)V");
+			jar[ei].methods.push(meth(ACC_PUBLIC, "m", &sd, Some(vec![])));
+			let bounds: Vec<String> = jar.iter().map(|c| fbh::gal::show(&c.name)).filter(|n| n != "E").collect();
+			for (k, b) in bounds.iter().enumerate() {
+				let bd = format!("(L{b};)V");
+				if bd == sd { // the start as its own bound: equal types; take the return position with another delegate instead
+					jar[ei].methods.push(meth(ACC_PUBLIC, "get", &format!("()L{start};"), Some(vec![])));
+					continue;
+				}
+				jar[ei].methods.push(meth(ACC_PUBLIC | ACC_SYNTHETIC, &format!("m{k}"), &bd, Some(vec![inv(CallKind::Virtual, "E", "m", &sd)])));
+			}
+			// the tie-break: bridges for one delegate in two classes of the hierarchy (get_descendants over the children table)
+			let names: Vec<String> = classes.iter().map(|c| c.0.to_string()).collect();
+			for (k, n) in names.iter().enumerate().take(3) {
+				let i = jar.iter().position(|c| c.name == s(n)).unwrap();
+				jar[i].methods.push(meth(ACC_PUBLIC | ACC_SYNTHETIC | ACC_BRIDGE, "call", "(Ljava/lang/Object;)V", Some(vec![inv(if k == 0 { CallKind::Virtual } else { CallKind::Special }, &names[0], "call", "(LD;)V")])));
+			}
+			let i0 = jar.iter().position(|c| c.name == s(&names[0])).unwrap();
+			jar[i0].methods.push(meth(ACC_PUBLIC, "call", "(LD;)V", Some(vec![])));
+			out.push(DetCase { label: format!("cycle: {label}{}", if reversed { ", jar order reversed" } else { "" }), g: JarGen { classes: jar, libs: vec![] }, maps: vec![] });
+		}
+	}
+}
+
+/// What "invokes exactly one distinct method" counts (C15_invoked_insn / C15_one_callee_count): every one of the four
+/// invoke opcodes, with a Methodref or an InterfaceMethodref constant; one target through several instructions or
+/// several opcodes once; the same name and descriptor on another owner as another method; references whose owner is an
+/// array class not at all — even with the delegate's name and descriptor; invokedynamic never.
+fn invoke_kinds(out: &mut Vec<DetCase>) {
+	let bd = "(Ljava/lang/Object;)V"; let sd = "(LA;)V";
+	let k4 = [CallKind::Virtual, CallKind::Special, CallKind::Static, CallKind::Interface];
+	// JVMS 6.5: invokeinterface takes an InterfaceMethodref, invokevirtual a Methodref, invokespecial / invokestatic either
+	// (duke's reader refuses the other combinations: C01's subject)
+	let t = |kind: CallKind, iface: bool| Call { kind, iface_ref: match kind { CallKind::Interface => true, CallKind::Virtual => false, _ => iface }, target: MRef { class: s("C"), name: s("set"), desc: s(sd) } };
+	let on = |kind: CallKind, owner: &str| inv(kind, owner, "set", sd);
+	let mut bodies: Vec<(String, Vec<Call>)> = vec![];
+	for k in k4 { for iface in [false, true] { bodies.push((format!("one {k:?}, interface constant {iface}"), vec![t(k, iface)])); } }
+	for a in k4 { for b in k4 { if a != b { bodies.push((format!("the same target by {a:?} and {b:?}"), vec![t(a, false), t(b, b == CallKind::Interface)])); } } }
+	bodies.push(("the same target four times, all opcodes".into(), k4.iter().map(|&k| t(k, false)).collect()));
+	for k in k4 {
+		bodies.push((format!("{k:?}: the delegate's name and descriptor on another owner too"), vec![t(CallKind::Virtual, false), on(k, "A")]));
+		bodies.push((format!("{k:?}: the delegate's name and descriptor on an array class too"), vec![on(k, "[LC;"), t(CallKind::Virtual, false)]));
+		bodies.push((format!("{k:?}: only on an array class"), vec![on(k, "[[I")]));
+	}
+	bodies.push(("array owner, then another owner, then the delegate".into(), vec![on(CallKind::Virtual, "[LA;"), on(CallKind::Virtual, "java/lang/Object"), t(CallKind::Virtual, false)]));
+	bodies.push(("same owner and name, other descriptor".into(), vec![t(CallKind::Virtual, false), inv(CallKind::Virtual, "C", "set", "(LA;)I")]));
+	bodies.push(("same owner and descriptor, other name".into(), vec![t(CallKind::Virtual, false), inv(CallKind::Virtual, "C", "set2", sd)]));
+	bodies.push(("invokedynamic with the delegate's name and descriptor between two invokes of the delegate".into(), vec![t(CallKind::Special, false), inv(CallKind::Dynamic, "C", "set", sd), t(CallKind::Static, true)]));
+	for (what, body) in bodies {
+		for flagged in [false, true] {
+			let mut jar = vec![class("A", None, &[]), class("C", None, &[])];
+			jar[1].methods.push(meth(ACC_PUBLIC, "set", sd, Some(vec![])));
+			jar[1].methods.push(meth(ACC_PUBLIC | ACC_SYNTHETIC | if flagged { ACC_BRIDGE } else { 0 }, "set", bd, Some(body.clone())));
+			out.push(DetCase { label: format!("invoke kinds: {what}{}", if flagged { " flagged" } else { "" }), g: JarGen { classes: jar, libs: vec![] }, maps: vec![] });
+		}
+	}
+}
+
+/// Arity: an unflagged synthetic whose parameter list is a proper prefix / extension of the delegate's, every common
+/// position and the return type compatible (equal, Object, an in-jar ancestor): no bridge in either direction, down to
+/// zero parameters.  The flagged variant is the control (the flag alone decides).
+fn arities(out: &mut Vec<DetCase>) {
+	// (bridge descriptor, delegate descriptor)
+	let pairs = [
+		("()V", "(LA;)V"), ("(LA;)V", "()V"), ("()LB;", "(LA;)LA;"), ("(Ljava/lang/Object;)V", "(LA;LA;)V"), ("(Ljava/lang/Object;Ljava/lang/Object;)V", "(LA;)V"),
+		("(LB;)V", "(LA;I)V"), ("(LB;I)V", "(LA;)V"), ("(I)I", "(II)I"), ("(II)I", "(I)I"), ("(LA;LA;LA;)LB;", "(LA;LA;)LA;"), ("(LA;LA;)LB;", "(LA;LA;LA;)LA;"),
+		("(J)V", "(JJ)V"), ("([LA;)V", "([LA;[LA;)V"),
+		// same arity, as the positive control of the same shapes
+		("(LB;)V", "(LA;)V"), ("(Ljava/lang/Object;LB;)LB;", "(LA;LA;)LA;"),
+	];
+	for (bd, sd) in pairs {
+		for flagged in [false, true] {
+			for same_name in [true, false] {
+				let mut jar = vec![class("B", None, &[]), class("A", Some("B"), &[]), class("C", None, &[])];
+				let dname = if same_name { "m" } else { "call" };
+				jar[2].methods.push(meth(ACC_PUBLIC, dname, sd, Some(vec![])));
+				jar[2].methods.push(meth(ACC_PUBLIC | ACC_SYNTHETIC | if flagged { ACC_BRIDGE } else { 0 }, "m", bd, Some(vec![inv(CallKind::Virtual, "C", dname, sd)])));
+				out.push(DetCase { label: format!("arity: {bd} forwards to {dname}{sd}{}", if flagged { " flagged" } else { "" }), g: JarGen { classes: jar, libs: vec![] }, maps: vec![] });
+			}
+		}
+	}
+}
+
+/// The delegate is a method of ANOTHER class than the bridge's (visibility bridges `invokespecial Base.a()`, interface
+/// and static forwarders): the entry goes into the bridge's class, keyed by the delegate's name and descriptor, and the
+/// delegate's own class is left alone.  Hand-built mapping sets with rows for both classes.
+fn foreign_owner(out: &mut Vec<DetCase>) {
+	let bd = "()Ljava/lang/Object;"; let sd = "()LA;";
+	// (owner of the delegate, opcode, the owner is a class of the jar)
+	let owners = [("B", CallKind::Special, true), ("I", CallKind::Interface, true), ("D", CallKind::Static, true), ("D", CallKind::Virtual, true),
+		("x/Lib", CallKind::Special, false), ("x/Lib", CallKind::Static, false), ("java/lang/Object", CallKind::Special, false)];
+	for (owner, kind, in_jar) in owners {
+		for flagged in [true, false] {
+			for with_lib in [false, true] {
+				if with_lib && owner != "x/Lib" { continue; }
+				// C extends B implements I (or extends x/Lib); D unrelated
+				let sup = if owner == "x/Lib" { "x/Lib" } else { "B" };
+				let mut jar = vec![class("A", None, &[]), class("B", None, &[]), class("I", None, &[]), class("D", None, &[]), class("C", Some(sup), &["I"])];
+				if in_jar { let oi = jar.iter().position(|c| c.name == s(owner)).unwrap(); jar[oi].methods.push(meth(ACC_PUBLIC | if kind == CallKind::Static { ACC_STATIC } else { 0 }, "a", sd, Some(vec![]))); }
+				jar[4].methods.push(meth(ACC_PUBLIC | ACC_SYNTHETIC | if flagged { ACC_BRIDGE } else { 0 }, "a", bd, Some(vec![inv(kind, owner, "a", sd)])));
+				let libs = if with_lib { vec![vec![AClass { name: s("x/Lib"), flags: ACC_PUBLIC | ACC_SUPER, super_class: Some(object()), interfaces: vec![], methods: vec![meth(ACC_PUBLIC, "a", sd, Some(vec![]))] }]] } else { vec![] };
+				let ns_c = vec![s("official"), s("intermediary")]; let ns_n = vec![s("intermediary"), s("named")];
+				let mut maps = vec![];
+				// (a) both classes have rows; the bridge is named in its own class, the delegate in its owner's class
+				maps.push((MMappings { ns: ns_c.clone(), doc: None, classes: vec![mclass("C", "net/C_0", vec![mmeth(bd, "a", "m_1")]), mclass(owner, "net/C_1", vec![mmeth(sd, "a", "m_2")])] },
+					MMappings { ns: ns_n.clone(), doc: None, classes: vec![mclass("net/C_0", "named/N0", vec![mmeth(bd, "m_1", "bridgeNamed")]), mclass("net/C_1", "named/N1", vec![mmeth(sd, "m_2", "delegateNamed")])] }));
+				// (b) identity class names, the delegate already has an entry (with another name) in BOTH classes
+				maps.push((MMappings { ns: ns_c.clone(), doc: None, classes: vec![] },
+					MMappings { ns: ns_n.clone(), doc: None, classes: vec![mclass("C", "C", vec![mmeth(bd, "a", "bridgeNamed"), mmeth(sd, "a", "oldInBridgeClass")]), mclass(owner, owner, vec![mmeth(sd, "a", "oldInOwner")])] }));
+				// (c) only the delegate's owner has a row: nothing may change
+				maps.push((MMappings { ns: ns_c.clone(), doc: None, classes: vec![] },
+					MMappings { ns: ns_n.clone(), doc: None, classes: vec![mclass(owner, owner, vec![mmeth(sd, "a", "oldInOwner"), mmeth(bd, "a", "bridgeNamedInOwner")])] }));
+				// (d) the bridge's name comes from the delegate's owner (a super type of C when owner = B / I / x/Lib)
+				maps.push((MMappings { ns: ns_c.clone(), doc: None, classes: vec![] },
+					MMappings { ns: ns_n.clone(), doc: None, classes: vec![mclass("C", "C", vec![]), mclass(owner, owner, vec![mmeth(bd, "a", "inheritedName")])] }));
+				out.push(DetCase { label: format!("foreign owner: C.a{bd} forwards by {kind:?} to {owner}.a{sd}{}{}", if flagged { " flagged" } else { "" }, if with_lib { ", library jar present" } else { "" }), g: JarGen { classes: jar, libs }, maps });
+			}
+		}
 	}
 }
 
@@ -234,6 +383,10 @@ pub fn det_cases() -> Vec<DetCase> {
 	shared_delegate(&mut out);
 	two_supers(&mut out);
 	indy(&mut out);
+	invoke_kinds(&mut out);
+	arities(&mut out);
+	foreign_owner(&mut out);
+	cycles(&mut out);
 	towers(&mut out);
 	out
 }
